@@ -73,7 +73,8 @@ def _prune(keep_hash):
         if e == keep_hash:
             continue
         kept += 1
-        if kept > 2:
+        # never remove a tree that was used in the last 45 minutes: another check (a scratch-worktree run) may be using it
+        if kept > 2 and time.time() - os.path.getmtime(os.path.join(CACHE, e)) > 2700:
             shutil.rmtree(os.path.join(CACHE, e), ignore_errors=True)
 
 
